@@ -41,7 +41,8 @@ def h_refine(cx, sp, dens, after_sibling=False):
         nm = shapes.DIRS[d]
         if den > 0:
             exp = expected_refined_kv(sp['kvs'][d], sp['degs'][d], den)
-            cx.eq('kv_%s' % nm, after['kvs'][d], cx.consts(exp))
+            off = info['K'][d][0] - cx.const(sp['kvs'][d][0])          # non-zero for `shifted` shapes only
+            cx.eq('kv_%s' % nm, after['kvs'][d], [e + off for e in cx.consts(exp)])
             cx.check('size_%s' % nm, after['sizes'][d] == len(exp) - sp['degs'][d] - 1, 'size %s' % after['sizes'][d])
         else:
             cx.eq('kv_%s_untouched' % nm, after['kvs'][d], before['kvs'][d])
@@ -142,6 +143,10 @@ def instances(tier):
         if not any(i.name == nm for i in out):
             out.append(inst(nm, h_refine, timeout=timeout, sp=sp, dens=tuple(dens), after_sibling=after_sibling))
 
+    add(spec('curve', (2,), ((1,),), rational=False, shifted=True), [1])
+    add(spec('curve', (3,), ((1, 1),), rational=True, shifted=True), [1])
+    add(spec('curve', (2,), ((1,),), rational=True, shifted=True), [2])
+    add(spec('surface', (1, 2), ((1,), ()), rational=False, shifted=True), [1, 1], timeout=1800)
     add(spec('curve', (2,), ((1,),), rational=False), [1], after_sibling=True)
     add(spec('curve', (3,), ((),), rational=True), [2], after_sibling=True)
     add(spec('surface', (1, 2), ((1,), ()), rational=False), [1, 0], after_sibling=True)
@@ -193,6 +198,8 @@ def instances(tier):
         out.append(inst('helper p%d knot_list from full-multiplicity knot' % p, h_refine_helper, p=p, kv=fam.pattern(p, (p, 1, 1)), knot_list=[F(1, 4), F(1)]))
         out.append(inst('helper p%d knot_list in last span' % p, h_refine_helper, p=p, kv=kv, knot_list=[F(4, 5), F(9, 10)]))
         out.append(inst('helper p%d knot_list in first span' % p, h_refine_helper, p=p, kv=kv, knot_list=[F(1, 10), F(1, 5)]))
+        out.append(inst('helper p%d knot_list not ascending' % p, h_refine_helper, p=p, kv=kv, knot_list=[F(7, 10), F(3, 10)]))
+        out.append(inst('helper p%d knot_list zig-zag with a repeat' % p, h_refine_helper, p=p, kv=kv, knot_list=[F(3, 5), F(1, 5), F(4, 5), F(1, 5)]))
         out.append(inst('helper p%d single knot in last span' % p, h_refine_helper, p=p, kv=kv, knot_list=[F(7, 8), F(7, 8)], density=1))
         out.append(inst('helper p%d add1' % p, h_refine_helper, timeout=900, p=p, kv=fam.pattern(p, (1,)), n_add=1))
         if not quick:
